@@ -85,6 +85,9 @@ class Sched:
         # "after:inference" | "after:training": right after the thread has been started (the statement
         # that follows `thread.start()` in the caller is never reached)
         self.boot_interrupt: str | None = None
+        # scheduling points at which the random policy leaves a thread waiting most of the time (a thread
+        # descheduled exactly there): every schedule remains possible, these become likely
+        self.lazy: set[str] = set()
         self.eps = 1e-9
 
     @property
@@ -158,7 +161,7 @@ class Sched:
             if p is None or th.done:
                 continue
             for a in p.alts():
-                out.append((th, a, p.weight_low and a == "timeout"))
+                out.append((th, a, (p.weight_low and a == "timeout") or p.kind in self.lazy))
         return out
 
     def _advance_time(self) -> bool:
